@@ -8,6 +8,7 @@ package main
 import (
 	"context"
 	"encoding/json"
+	"errors"
 	"fmt"
 	"strings"
 	"time"
@@ -143,10 +144,11 @@ type run struct {
 	afterEst  bool
 	estSent   map[string]interface{} // last established envelope sent
 	lastSent  *sinput
+	viaClient bool
 	delivered bool // the client consumed the last server envelope (it answered or returned after it)
 }
 
-func body(depth int, cfgs []ccfg, postEst bool) func(x *harness.X) {
+func body(depth int, cfgs []ccfg, postEst bool, viaClient bool) func(x *harness.X) {
 	alpha := salphabet()
 	return func(x *harness.X) {
 		lib.Reset()
@@ -160,15 +162,38 @@ func body(depth int, cfgs []ccfg, postEst bool) func(x *harness.X) {
 			tcp.TLSConfig = lib.TLSClientConfig()
 		}
 		tr := lime.NewTCPTransportFromConn(cconn, tcp, false)
-		cc := lime.NewClientChannel(tr, 1)
-		r.cc = cc
 		ctx, cancel := context.WithTimeout(context.Background(), 60*time.Second)
 		defer cancel()
-		go func() {
-			ses, err := cc.EstablishSession(ctx, cfg.comp, cfg.enc, lime.Identity{Name: "alice", Domain: "cli.test"}, cfg.auth, "home")
-			r.retSes, r.retErr, r.ret = ses, err, true
-			x.Obs("establish returned err=%v state=%v", err != nil, stateOf(ses))
-		}()
+		if viaClient {
+			// the high-level Client: its factory yields this one connection, later dials are refused
+			r.viaClient = true
+			used := false
+			ccfg := lime.NewClientConfig()
+			ccfg.Node = lime.Node{Identity: lime.Identity{Name: "alice", Domain: "cli.test"}, Instance: "home"}
+			ccfg.ChannelBufferSize = 1
+			ccfg.CompSelector, ccfg.EncryptSelector, ccfg.Authenticator = cfg.comp, cfg.enc, cfg.auth
+			ccfg.NewTransport = func(context.Context) (lime.Transport, error) {
+				if used {
+					return nil, errors.New("connection refused")
+				}
+				used = true
+				return tr, nil
+			}
+			client := lime.NewClient(ccfg, &lime.EnvelopeMux{})
+			go func() {
+				err := client.Establish(ctx)
+				r.retErr, r.ret = err, true
+				x.Obs("Client.Establish returned err=%v", err != nil)
+			}()
+		} else {
+			cc := lime.NewClientChannel(tr, 1)
+			r.cc = cc
+			go func() {
+				ses, err := cc.EstablishSession(ctx, cfg.comp, cfg.enc, lime.Identity{Name: "alice", Domain: "cli.test"}, cfg.auth, "home")
+				r.retSes, r.retErr, r.ret = ses, err, true
+				x.Obs("establish returned err=%v state=%v", err != nil, stateOf(ses))
+			}()
+		}
 		peer := lib.NewRawPeer(sconn)
 		collect := func() {
 			for {
@@ -302,6 +327,17 @@ func final(x *harness.X, res *rt.Result) {
 		}
 		prevWasAuthReq = false
 	}
+	if r.viaClient {
+		// Client.Establish reports success only when the server's last word was an established session
+		lw := ""
+		if lastSrvSession != nil {
+			lw = lib.Str(lastSrvSession, "state")
+		}
+		if r.retErr == nil && lw != "established" {
+			x.Failf("client-establish-untruthful", "Client.Establish returned nil but the server's last word was %q %s", lw, script)
+		}
+		return
+	}
 	// truthful establishment
 	reported := r.retErr == nil && stateOf(r.retSes) == "established"
 	lastWord := ""
@@ -346,12 +382,12 @@ func main() {
 	opt := rt.Options{Horizon: 400 * time.Second, MaxSteps: 100000, NoTimerDeviation: true}
 	all := clientConfigs()
 	mk := func(name string, depth int, cfgs []ccfg, post bool, q, t int) harness.Scenario {
-		return harness.Scenario{Name: name, Opt: opt, Quick: q, Thorough: t, Body: body(depth, cfgs, post), Final: final}
+		return harness.Scenario{Name: name, Opt: opt, Quick: q, Thorough: t, Body: body(depth, cfgs, post, false), Final: final}
 	}
 	harness.Main(harness.Check{
 		Property: "C08",
 		Level:    "model_checking",
-		Rule:     "script tree: client configuration (4 selector/authenticator/TLS-capability combinations) x server script over a 26-symbol alphabet (every session state incl. regressions, id variants, option lists, confirmations, scheme lists, round-trip data, data envelopes, undecodable bytes, disconnect, silence until the context deadline) to the stated depth; each path is one execution of the real ClientChannel.EstablishSession over a virtual connection (real TLS when confirmed); distinct outcome = distinct observation log",
+		Rule:     "script tree: client configuration (4 selector/authenticator/TLS-capability combinations) x server script over a 26-symbol alphabet (every session state incl. regressions, id variants, option lists, confirmations, scheme lists, round-trip data, data envelopes, undecodable bytes, disconnect, silence until the context deadline) to the stated depth; each path is one execution of the real ClientChannel.EstablishSession (and, in the client/ scenarios, of Client.Establish with a one-connection transport factory) over a virtual connection (real TLS when confirmed); distinct outcome = distinct observation log",
 		Assume:   []string{"selector and authenticator callbacks return normally (the statement's own proviso)", "TCP transport over a virtual pipe", "deviation bound 0 (lock-step exchange); bound 1 with preemptions only on the depth-3 tree in thorough"},
 		Scenarios: []harness.Scenario{
 			mk("channel/d5", 5, all, false, 0, -1),
@@ -359,6 +395,8 @@ func main() {
 			mk("channel/d3/post-established", 3, all, true, 0, -1),
 			mk("channel/d4/post-established", 4, all, true, -1, 0),
 			mk("channel/d3/k1", 3, all[:2], false, -1, 1),
+			{Name: "client/d3", Opt: opt, Quick: 0, Thorough: -1, Body: body(3, all[:1], false, true), Final: final},
+			{Name: "client/d4", Opt: opt, Quick: -1, Thorough: 0, Body: body(4, all[:2], false, true), Final: final},
 		},
 	})
 }
